@@ -4,7 +4,8 @@
      {"act":"reset","case":k,"smsize":S,"sdotu":b}
      {"act":"version","m":M,"v":V,"obs":{"type":"Rversion"|"Rerror","msize":..,"version":..}}
      {"act":"frame","size":n,"kind":"Rstat"...}      a frame the server wrote afterwards
-     {"act":"header","s":n,"obs":"dropped"|"accepted"}
+     {"act":"header","s":n,"obs":"dropped"|"accepted"|"executed"}
+     {"act":"session","msize":n,"dotu":b}            a fresh connection negotiated to these values
      {"act":"connect","cm":M,"cdotu":b,"rm":RM,"rv":RV,"obs":{"msize":..,"dotu":..}}   client side
    Mismatches are printed as MISMATCH json. *)
 EXTENDS Integers, Sequences, TLC, Json, IOUtils
@@ -49,6 +50,9 @@ OnHeader ==
   /\ ((~bad /\ Line.obs = "dropped") => Bad("legal frame size must not drop the connection", [obs |-> "accepted"]))
   /\ alive' = (Line.obs # "dropped") /\ UNCHANGED <<case, smsize, sdotu, msize, dotu>>
 
+OnSession ==   \* a fresh connection negotiated to (msize, dotu): the lines that follow refer to it
+  /\ msize' = Line.msize /\ dotu' = Line.dotu /\ alive' = TRUE /\ UNCHANGED <<case, smsize, sdotu>>
+
 OnConnect ==   \* the client adopts min(msize) and the dialect only if both sides asked
   LET em == Min(Line.cm, Line.rm)
       ed == (Line.rv = "9P2000.u" /\ Line.cdotu) IN
@@ -62,6 +66,7 @@ Next ==
           [] Line.act = "frame" -> OnFrame
           [] Line.act = "header" -> OnHeader
           [] Line.act = "connect" -> OnConnect
+          [] Line.act = "session" -> OnSession
           [] OTHER -> UNCHANGED <<case, smsize, sdotu, msize, dotu, alive>>
   \/ /\ l = Len(Trace) + 1 /\ ~done /\ done' = TRUE /\ PrintT(<<"CONSUMED", Len(Trace)>>)
      /\ UNCHANGED <<l, case, smsize, sdotu, msize, dotu, alive>>
